@@ -11,7 +11,7 @@
          (without separator) is reported: `ab.c` and `a.bc` collide while the name-keyed duplicate check passes.
   C08.F  caller frame isolation: a frame's stack_offset is len - arity and Return truncates exactly to it.
 """
-from cao.facts import (AnchorMissing, callee_names, short, op_local, op_place, DefUse, hir_walk, hir_callee, hir_strip, hir_local_id)
+from cao.facts import (AnchorMissing, callee_names, short, op_local, op_place, DefUse, hir_walk, hir_callee, hir_strip, hir_local_id, hir_children, pat_bindings)
 from cao.rules import Rule, ok, bad, undecided, note
 from cao import mirutil as mu
 from cao import hirutil as hu
@@ -94,6 +94,161 @@ def rule_d(F):
                        "add_function tests the jump table for %s but inserts under %s: two functions with the same name in one sub-module are "
                        "not rejected (the second silently replaces the first), while a root function named like any function of any "
                        "sub-module (including std: map, min, filter, ...) is rejected as a duplicate" % (tk, ik)))
+    return res
+
+
+def rule_m(F):
+    """C08.M: duplicate sub-module names are compilation errors. In Module::ensure_invariants the scan that collects the
+    sibling names into the scratch set touches the set only through contains / insert: it is not cleared, replaced or handed
+    to the recursive call while siblings are still to be compared (two same-named siblings separated by a module with
+    children of its own would otherwise both be accepted, and lookup designates only the first). Every recursive call gets
+    a cleared (or fresh) set, so names of another level are not reported as duplicates."""
+    res = []
+    f = F.fn("compiler::module::Module::ensure_invariants")
+    body = f.hir["body"]
+    # the scratch set: a local of HashSet type
+    def is_set(e):
+        e = hu.strip_all(e)
+        return e is not None and e.get("k") == "path" and e["path"]["res"].get("k") == "local" and "HashSet" in (e.get("ty") or "")
+    loops = [x for x in hir_walk(body) if x.get("k") == "loop"]
+    scans = []
+    for lp in loops:
+        ins = [y for y in hir_walk(lp) if y.get("k") == "mcall" and y["name"] in ("insert", "contains", "replace", "get") and is_set(y["recv"])]
+        if ins:
+            scans.append(lp)
+    if not scans:
+        raise AnchorMissing("sibling-name scan (HashSet insert/contains in a loop) in Module::ensure_invariants")
+    key = "C08/M/ensure_invariants/sibling-scan-keeps-its-set"
+    offenders = []
+    for lp in scans:
+        for y in hir_walk(lp):
+            if y.get("k") == "mcall" and is_set(y["recv"]) and y["name"] not in ("insert", "contains", "get", "len", "is_empty"):
+                offenders.append((y, "%s() on the set" % y["name"]))
+            elif y.get("k") in ("mcall", "call"):
+                args = list(y.get("args") or [])
+                if any(is_set(a) or (hu.strip_all(a) or {}).get("k") == "addr_of" and is_set(hu.strip_all(a)["e"]) for a in args):
+                    nm = y.get("name") or (hir_callee(y) or ["?"])[0]
+                    if nm not in ("insert", "contains"):
+                        offenders.append((y, "the set is handed to %s" % nm))
+            elif y.get("k") == "assign" and is_set(y["l"]):
+                offenders.append((y, "the set is replaced"))
+    if offenders:
+        y, why = offenders[0]
+        res.append(bad("C08.M", key, f.loc(y.get("ln")),
+                       "Module::ensure_invariants: inside the loop that compares the sub-module names of one level %s: the names seen so far "
+                       "are forgotten while later siblings are still to be checked, so a duplicate sub-module name after a module with "
+                       "children is accepted (and only the first of the two can ever be resolved) instead of DuplicateModule" % why))
+    else:
+        res.append(ok("C08.M", key, f.loc(), "%d scan loop(s); the set is only queried/extended while siblings are compared" % len(scans)))
+    # recursion gets a cleared or fresh set
+    key2 = "C08/M/ensure_invariants/recursion-starts-from-an-empty-set"
+    rec = []
+    for bl in [x for x in hir_walk(body) if x.get("k") == "block"]:
+        stmts = [st.get("e") or st.get("init") for st in bl["block"]["stmts"]] + ([bl["block"].get("expr")] if bl["block"].get("expr") else [])
+        for i, e in enumerate(stmts):
+            if e is None:
+                continue
+            calls_here = [y for y in hir_walk(e) if y.get("k") == "mcall" and y["name"] == "ensure_invariants"
+                          and any(n.endswith("Module::ensure_invariants") for n in hir_callee(y))]
+            inner_blocks = [y for y in hir_walk(e) if y.get("k") == "block" and y is not e]
+            for c in calls_here:
+                if any(any(z is c for z in hir_walk(ib)) for ib in inner_blocks):
+                    continue
+                prev = stmts[i - 1] if i > 0 else None
+                cleared = prev is not None and any(y.get("k") == "mcall" and y["name"] == "clear" and is_set(y["recv"]) for y in hir_walk(prev))
+                fresh = any((hu.strip_all(a) or {}).get("k") in ("addr_of",) and not is_set(hu.strip_all(a)["e"]) for a in c["args"])
+                rec.append((c, cleared or fresh))
+    if not rec:
+        raise AnchorMissing("recursive ensure_invariants call")
+    badrec = [c for c, good in rec if not good]
+    if badrec:
+        res.append(bad("C08.M", key2, f.loc(badrec[0].get("ln")),
+                       "Module::ensure_invariants recurses into a sub-module with the scratch set still holding the names of the parent "
+                       "level: a sub-module named like one of its uncles is rejected as DuplicateModule although the names are unique"))
+    else:
+        res.append(ok("C08.M", key2, f.loc(rec[0][0].get("ln")), "the set is cleared immediately before each of %d recursive call(s)" % len(rec)))
+    return res
+
+
+def rule_p(F):
+    """C08.P: `super.` walking up. (1) super_depth recognises `super.` only as whole leading path components: every string
+    search for the literal "super." in it is prefix-anchored (strip_prefix / starts_with); an unanchored search
+    (split_once, find, contains, ...) also fires inside a module name such as `mysuper.` and resolves the import one level
+    up, to another function. (2) wherever resolve_function applies the depth (namespace shortened by `take(depth)`), the
+    alias enters the looked-up name only through its stripped form `s.unwrap_or(alias)`, and the function part of a
+    `prefix.function` call is appended as it is: otherwise `super.` is counted twice and the import never resolves."""
+    res = []
+    sd = F.fn("compiler::super_depth")
+    anchored, loose = [], []
+    for y in hir_walk(sd.hir["body"]):
+        if y.get("k") != "mcall":
+            continue
+        lits = [z["lit"].get("v") for a in y.get("args") or [] for z in hir_walk(a) if z.get("k") == "lit" and z["lit"].get("k") == "str"]
+        if not any(isinstance(v, str) and "super" in v for v in lits):
+            continue
+        if y["name"] in ("strip_prefix", "starts_with"):
+            anchored.append(y)
+        else:
+            loose.append(y)
+    key = "C08/P/super_depth/super-is-a-leading-component"
+    if loose:
+        res.append(bad("C08.P", key, sd.loc(loose[0].get("ln")),
+                       "super_depth looks for \"super.\" with str::%s, which also matches inside a name (the import `mysuper.foo` of a module "
+                       "called mysuper is read as one `super.` followed by `foo`): the call is bound to a function of the parent module "
+                       "instead of the designated one" % loose[0]["name"]))
+    elif anchored:
+        res.append(ok("C08.P", key, sd.loc(anchored[0].get("ln")), "\"super.\" is only matched with %s" % sorted(set(a["name"] for a in anchored))))
+    else:
+        raise AnchorMissing("string search for \"super.\" in compiler::super_depth")
+    f = F.fn("compiler::Compiler::resolve_function")
+    n = 0
+    for bl in [x for x in hir_walk(f.hir["body"]) if x.get("k") == "block"]:
+        for st in bl["block"]["stmts"]:
+            if st["k"] != "let" or st.get("init") is None:
+                continue
+            init = hu.strip_all(st["init"])
+            if not (init.get("k") == "call" and "compiler::super_depth" in hir_callee(init)):
+                continue
+            alias = hir_local_id(hu.strip_all(init["args"][0]))
+            binds = pat_bindings(st["pat"])
+            if alias is None or len(binds) != 2:
+                res.append(undecided("C08.P", "C08/P/resolve_function/site%d" % n, f.loc(st.get("ln")), "super_depth call of another shape"))
+                continue
+            s_id = binds[1][0]
+            n += 1
+            key = "C08/P/resolve_function/import#%d-alias-enters-stripped" % n
+            # occurrences of alias in the block, outside the super_depth call itself
+            par = {}
+            for x in hir_walk(bl):
+                for c in hir_children(x):
+                    par[id(c)] = x
+            bad_use = None
+            for x in hir_walk(bl):
+                if x.get("k") == "path" and x["path"]["res"].get("k") == "local" and x["path"]["res"]["id"] == alias:
+                    p = par.get(id(x))
+                    while p is not None and p.get("k") in ("cast", "addr_of", "un", "drop_temps", "use"):
+                        p = par.get(id(p))
+                    if p is init or any(z is x for z in hir_walk(init)):
+                        continue
+                    if p is not None and p.get("k") == "mcall" and p["name"] in ("unwrap_or",) and hir_local_id(hu.strip_all(p["recv"])) == s_id:
+                        continue
+                    bad_use = x
+            # the stripped form must not swallow the function part: unwrap_or(recv s) takes only the alias
+            for x in hir_walk(bl):
+                if x.get("k") == "mcall" and x["name"] == "unwrap_or" and hir_local_id(hu.strip_all(x["recv"])) == s_id:
+                    a = hir_local_id(hu.strip_all(x["args"][0]))
+                    if a != alias:
+                        bad_use = x
+            if bad_use is not None:
+                res.append(bad("C08.P", key, f.loc(bad_use.get("ln")),
+                               "resolve_function shortens the namespace by the number of `super.` components of the import and then builds "
+                               "the name from the unstripped alias (or puts the stripped alias where the function part belongs): `super.` is "
+                               "applied twice / the function part is lost, so a call through a module imported with `super.` never resolves "
+                               "(InvalidJump for a name that designates exactly one function)"))
+            else:
+                res.append(ok("C08.P", key, f.loc(st.get("ln")), "alias used only as s.unwrap_or(alias) after the namespace was shortened"))
+    if n < 2:
+        raise AnchorMissing("super_depth call sites in resolve_function (found %d)" % n)
     return res
 
 
@@ -368,6 +523,8 @@ def rule_f(F):
 RULES = [
     Rule("C08.H", rule_h, 1, "function handles are injective"),
     Rule("C08.D", rule_d, 1, "duplicate test and insertion use the same key"),
+    Rule("C08.M", rule_m, 2, "the duplicate sub-module scan completes before its set is reused"),
+    Rule("C08.P", rule_p, 3, "`super.` is a leading component; the alias enters the looked-up name stripped"),
     Rule("C08.V", rule_v, 2, "every namespace component is validated"),
     Rule("C08.O", rule_o, 2, "resolution tries the documented lookups in order, later ones only on a miss"),
     Rule("C08.F", rule_f, 2, "callee frame = len - arity, Return truncates to it"),
